@@ -332,4 +332,60 @@ def cmdCaseConv (ws : List String) : String :=
 /-- `sertext <hex text>` → `SerializerUnicode` on a raw string -/
 def cmdSerText (ws : List String) : String := "ok " ++ showTextHex (serializeText ((words ws).map parseHexWord))
 
+/-! `liftok`: the decidable predicates of the C10 reindent clause (SqlModel/Filters/Lift.lean) along a `format()` run -/
+
+/-- the statement filters one by one; at the ReindentFilter: `liftOK` of the tree it receives, `brkOK` of the tree it returns,
+and whether clause (3) of the side conditions fails (`idListSplit`) -/
+def runStmtObjsLift (fuel : Nat) : List StmtObj → FNode → Except PyErr (FNode × List StmtObj × Option (Bool × Bool × Bool))
+  | [], n => .ok (n, [], none)
+  | f :: fs, n =>
+    match f.process fuel n with
+    | .error e => .error e
+    | .ok (n', f') =>
+      let rep : Option (Bool × Bool × Bool) := match f with
+        | .reindent .. => some (liftOK n, brkOK n', idListSplit n)
+        | _ => none
+      match runStmtObjsLift fuel fs n' with
+      | .error e => .error e
+      | .ok (n'', fs', rep') => .ok (n'', f' :: fs', if rep.isSome then rep else rep')
+
+def b01 (b : Bool) : String := if b then "1" else "0"
+
+/-- one word per statement: `l:b:i`, `-` (no ReindentFilter in the stack), or `err:<Exception>` (the run stops there) -/
+def liftStatements (fuel : Nat) (grouping : Bool) : List StmtObj → List (List Tok) → List String
+  | _, [] => []
+  | objs, st :: rest =>
+    let tree : Except PyErr Node :=
+      if grouping then groupStatement fuel st else .ok (.grp .Statement (st.map fun t => Node.tok t.tt t.val))
+    match tree with
+    | .error e => ["err:" ++ e.name]
+    | .ok tree =>
+      match runStmtObjsLift fuel objs (FNode.ofNode tree) with
+      | .error e => ["err:" ++ e.name]
+      | .ok (n, objs', rep) =>
+        let w := match rep with
+          | some (l, b, i) => b01 l ++ ":" ++ b01 b ++ ":" ++ b01 i
+          | none => "-"
+        w :: liftStatements fuel grouping (objs'.map (StmtObj.noteLast n.text)) rest
+
+/-- `liftok <k=v;…|-> <fuel> <hex text>` → `ok <word per statement>` (options as for `fmt`; token filters are applied first) -/
+def cmdLiftOk (ws : List String) : String :=
+  match words ws with
+  | opts :: fuel :: rest =>
+    match parseDict (if opts == "-" then "" else opts), fuel.toNat? with
+    | some d, some fuel =>
+      match validateOptions d with
+      | .error e => "err " ++ e.name
+      | .ok o =>
+        let p := buildFilterStack o
+        match lex defaultCfg (rest.map parseHexWord).toArray with
+        | .error e => "err " ++ e.name
+        | .ok toks =>
+          let (good, _) := preprocessPrefix p.preprocess toks
+          match splitProcess defaultSplitCfg good with
+          | .error e => "err " ++ e.name
+          | .ok stmts => "ok " ++ " ".intercalate (liftStatements fuel p.grouping (p.stmtprocess.map StmtObj.ofFilter) stmts)
+    | _, _ => "bad-request"
+  | _ => "bad-request"
+
 end Sql.Driver
